@@ -71,6 +71,30 @@ class PauseTap(ns.Tap):
             env.in_pclose.discard(ident)
 
 
+class LockProxy:
+    """stands in for Channel.lock (same underlying lock, so out_buffer_cv keeps working): a caller that is
+    inside _event_pending is held right before it takes the lock"""
+    def __init__(self, lock, env):
+        self._lock, self._env = lock, env
+
+    def acquire(self, *a, **kw):
+        self._env.lock_gate()
+        return self._lock.acquire(*a, **kw)
+
+    def release(self):
+        return self._lock.release()
+
+    def __enter__(self):
+        self._env.lock_gate()
+        return self._lock.__enter__()
+
+    def __exit__(self, *a):
+        return self._lock.__exit__(*a)
+
+    def __getattr__(self, k):
+        return getattr(self._lock, k)
+
+
 class CvProxy:
     """stands in for Transport.server_accept_cv: logs wait / notify / notify_all"""
     def __init__(self, cv, env):
@@ -343,6 +367,43 @@ class Env:
                 setattr(v, name, gate_for(name, getattr(v, name)))
         return True
 
+    def install_lock_hooks(self):
+        """plan midlock: hold each channel-request caller between entering _event_pending and taking Channel.lock"""
+        self.mid_arrived = []
+        self.in_pending = set()
+        self.lock_untouched = []
+        for i, c in enumerate(self.callers):
+            k = sum(1 for d in self.callers[:i] if family(d[0]) in CHANNEL_FAMS)
+            ch = self.victim_chan(k)
+            if not hasattr(ch, "_event_pending") or not hasattr(ch, "lock"):
+                return False
+            ch.lock = LockProxy(ch.lock, self)
+
+            def pending(orig=ch._event_pending):
+                cur = threading.current_thread()
+                self.in_pending.add(cur)
+                try:
+                    return orig()
+                finally:
+                    self.in_pending.discard(cur)
+                    if cur in self.threads and cur not in self.mid_arrived:
+                        # _event_pending never took the lock: the planned point does not exist in this code
+                        self.lock_untouched.append(cur)
+                        self.mid_arrived.append(cur)
+                        if len(self.mid_arrived) == len(self.callers):
+                            self.reached.set()
+            ch._event_pending = pending
+        return True
+
+    def lock_gate(self):
+        cur = threading.current_thread()
+        if cur in getattr(self, "in_pending", ()) and cur in self.threads and cur not in self.mid_arrived:
+            self.mid_arrived.append(cur)
+            self.log({"ev": "Hook", "name": "mid_lock", "by": "caller", "active": self.active()})
+            if len(self.mid_arrived) == len(self.callers):
+                self.reached.set()
+            self.resume.wait(20)
+
     # ---- the loss
     def trigger(self):
         kind, link = self.kind, self.sess.link
@@ -421,9 +482,9 @@ class Env:
                     est = False
                     self.notes.append("caller %d was %s before the loss" % (i + 1, st))
             self.trigger()
-        elif plan == "mid":
+        elif plan in ("mid", "midlock"):
             self.prepare_blocking()
-            if not self.install_mid_hooks():
+            if not (self.install_mid_hooks() if plan == "mid" else self.install_lock_hooks()):
                 est = False
             for i in range(n):
                 self.start_call(i)
@@ -433,6 +494,10 @@ class Env:
             self.trigger()
             if not self.wait_inactive():
                 self.notes.append("victim still active 5 s after the loss")
+            if plan == "midlock":
+                self.wait_shutdown(3.0)      # the channel is closed by then (run() or close() unlinked it)
+                if self.lock_untouched:
+                    self.notes.append("unrealisable: _event_pending does not take Channel.lock")
             self.resume.set()
         elif plan in ("at_unlink", "at_pclose", "at_sockclose"):
             self.pause_at = plan[3:]
